@@ -218,7 +218,7 @@ pub fn run(ctx: &mut Ctx) -> Result<(), Violation> {
     }
     ctx.stage("hand-written-hard-cases", true, (st, None))?;
 
-    let cases = ctx.tier.pick(200_000, 3_000_000);
+    let cases = ctx.tier.pick(200_000, 12_000_000);
     let r = par_random(ctx, "random", cases, 260, |tape, st| {
         let mut t = Tape::new(tape);
         let mut cfg = Cfg::standard(2 + t.choose(4), 1 + t.choose(5));
